@@ -1193,3 +1193,115 @@ Example T02s_comments_example :
 Proof. exact cm_rule_example. Qed.
 
 End Str.
+(* ------------------------------------------------------------------------------------------- *)
+(* abstraction tranche: overused_constant, missing_context_manager (design/C02_abs.md) *)
+Require Pyrefact.RulesAbsModel Pyrefact.RulesAbsProofs.
+
+Module Abs.
+Import ListNotations.
+Import Pyrefact.RulesAbsModel Pyrefact.RulesAbsProofs.
+
+(* overused_constant, for EVERY program of AbsPy and EVERY plan (literal -> new name) of immutable literals with
+   distinct names that do not occur in the program: binding the literals behind the docstring / leading imports and
+   replacing their occurrences preserves every run -- outcome incl. returned contents and exception class, heap,
+   handles, event trace, oracle position, and every variable except the new names. *)
+Theorem T02a_overused_constant_sound : forall p pl,
+  plan_imm pl = true -> NoDup (names pl) -> (forall x, In x (names pl) -> maxv p < x) ->
+  forall o st, res_rel pl (exec_block o st p) (exec_block o st (oc_with pl p)).
+Proof. exact oc_with_sound. Qed.
+Print Assumptions T02a_overused_constant_sound.
+
+(* the rule as it is (plan = its own choice of literals, >= 5 occurrences, >= 20 characters): sound whenever every
+   chosen literal is immutable ... *)
+Theorem T02a_overused_constant_partial : forall p p', oc p = Some p' -> plan_imm (oc_plan p) = true ->
+  forall o st, res_rel (oc_plan p) (exec_block o st p) (exec_block o st p').
+Proof. exact oc_partial. Qed.
+Print Assumptions T02a_overused_constant_partial.
+
+(* ... and refuted for list displays, which the rule admits (F02-81): five lists become one *)
+Theorem T02a_overused_constant_refuted_list_display : exists p p' o,
+  oc p = Some p' /\ plan_imm (oc_plan p) = false /\
+  ~ res_rel (oc_plan p) (exec_block o st0 p) (exec_block o st0 p') /\
+  s_tr (snd (exec_block o st0 p)) = [EvCall 0 [RList [RAtom 0 22]]] /\
+  s_tr (snd (exec_block o st0 p')) = [EvCall 0 [RList [RAtom 0 22; RAtom 4 5]]].
+Proof. exact oc_refuted_list_display. Qed.
+Print Assumptions T02a_overused_constant_refuted_list_display.
+
+(* evaluating an immutable literal is pure and yields the same value in every state *)
+Theorem T02a_immutable_literal_pure : forall o st l, imm_lit l = true -> eval o st l = EV (litval l) st.
+Proof. exact eval_imm. Qed.
+Print Assumptions T02a_immutable_literal_pure.
+
+Example T02a_overused_constant_example :
+  let p := SImport 0 :: five (EDisp KTup [EAtom 0 22; EAtom 4 5]) ++ [SExpr (ECall 0 [EAtom 0 22; EName 2])] in
+  oc p = Some (SImport 0 :: SAssign 6 (EDisp KTup [EAtom 0 22; EAtom 4 5]) :: five (EName 6) ++ [SExpr (ECall 0 [EAtom 0 22; EName 2])])
+  /\ plan_imm (oc_plan p) = true.
+Proof. exact oc_partial_example. Qed.
+
+(* missing_context_manager (after repairs 3428d16, 99bac35), one rewrite in one statement list, every run: the same
+   outcome, and the final state is the same or differs by ONE handle closed (one more EvClose event) *)
+Theorem T02a_mcm_sound : forall b b', mcm1 b = Some b' ->
+  forall o st, close_rel (exec_block o st b) (exec_block o st b').
+Proof. exact mcm1_sound. Qed.
+Print Assumptions T02a_mcm_sound.
+
+(* when exactly: runs on which the moved block completes are unchanged ... *)
+Theorem T02a_mcm_close_normal : forall o st x r b1 b2 st2,
+  existsb (assigns x) b1 = false ->
+  exec_block o (opened x r st) b1 = (Normal, st2) ->
+  exec_block o st (SWith x r b1 :: b2) = exec_block o st (SOpen x r :: b1 ++ SClose x :: b2).
+Proof. exact mcm_close_normal. Qed.
+Print Assumptions T02a_mcm_close_normal.
+
+(* ... runs on which it is left by an exception or a return end with the handle closed (the point of the rule) ... *)
+Theorem T02a_mcm_close_abrupt : forall o st x r b1 b2 out st2,
+  exec_block o (opened x r st) b1 = (out, st2) -> out <> Normal ->
+  exec_block o st (SOpen x r :: b1 ++ SClose x :: b2) = (out, st2) /\
+  exec_block o st (SWith x r b1 :: b2) = (out, close_h (length (s_files st)) st2).
+Proof. exact mcm_close_abrupt. Qed.
+Print Assumptions T02a_mcm_close_abrupt.
+
+(* ... and without any close() the handle is closed when the list is left, on every run *)
+Theorem T02a_mcm_noclose_exact : forall o st x r rest,
+  exec_block o st [SWith x r rest] =
+  (fst (exec_block o st (SOpen x r :: rest)), close_h (length (s_files st)) (snd (exec_block o st (SOpen x r :: rest)))).
+Proof. exact mcm_noclose_exact. Qed.
+Print Assumptions T02a_mcm_noclose_exact.
+
+(* so full-strength equality of runs is refuted, by design *)
+Theorem T02a_mcm_strict_refuted : exists b b' o,
+  mcm1 b = Some b' /\ exec_block o st0 b <> exec_block o st0 b' /\
+  s_tr (snd (exec_block o st0 b')) = EvClose 0 :: s_tr (snd (exec_block o st0 b)).
+Proof. exact mcm_strict_refuted. Qed.
+Print Assumptions T02a_mcm_strict_refuted.
+
+(* the rule before the repairs *)
+Theorem T02a_mcm_old_refuted_rebind : exists b b' o,
+  mcm1_old b = Some b' /\ mcm1 b <> Some b' /\
+  s_files (snd (exec_block o st0 b)) = [true; false] /\ s_files (snd (exec_block o st0 b')) = [false; true] /\
+  ~ close_rel (exec_block o st0 b) (exec_block o st0 b').
+Proof. exact mcm_old_refuted_rebind. Qed.
+Print Assumptions T02a_mcm_old_refuted_rebind.
+
+Theorem T02a_mcm_old_refuted_nested_return : exists b b' o,
+  mcm1_old b = Some b' /\ mcm1 b = None /\
+  fst (exec_block o st0 b) = Ret (RHandle 0 true) /\ fst (exec_block o st0 b') = Ret (RHandle 0 true) /\
+  nth 0 (s_files (snd (exec_block o st0 b))) false = true /\
+  nth 0 (s_files (snd (exec_block o st0 b'))) false = false.
+Proof. exact mcm_old_refuted_nested_return. Qed.
+Print Assumptions T02a_mcm_old_refuted_nested_return.
+
+(* not a congruence: the with block ends with the list in which it is introduced, the enclosing list may still use the
+   handle (F02abs-3) *)
+Theorem T02a_mcm_nested_refuted : exists p o,
+  mcm p = [SIf (ECall 0 []) [SWith 1 0 [SRead 2 1]] []; SRead 2 1] /\
+  fst (exec_block o st0 p) = Normal /\ fst (exec_block o st0 (mcm p)) = Exc XClosed.
+Proof. exact mcm_nested_refuted. Qed.
+Print Assumptions T02a_mcm_nested_refuted.
+
+Example T02a_mcm_example :
+  mcm [SOpen 1 0; SRead 2 1; SClose 1; SExpr (ECall 0 [EName 2])] = [SWith 1 0 [SRead 2 1]; SExpr (ECall 0 [EName 2])]
+  /\ mcm [SOpen 1 0; SOpen 3 1; SRead 2 1] = [SWith 1 0 [SWith 3 1 [SRead 2 1]]].
+Proof. exact mcm_fires_example. Qed.
+
+End Abs.
